@@ -117,6 +117,8 @@ func TestVerifC08Histories(t *testing.T) {
 					step(act{Op: "restart"})
 				}
 			},
+			"deactivate-rev": func(t *rapid.T) { step(act{Op: "deactivate-rev"}) },
+			"rec-rev2":       func(t *rapid.T) { step(drawFault(t, act{Op: "rec-rev"})) },
 			"lock-churn": func(t *rapid.T) { step(act{Op: "lock-churn", I: rapid.IntRange(0, 2).Draw(t, "n")}) },
 		})
 
@@ -134,6 +136,9 @@ func TestVerifC08Histories(t *testing.T) {
 		}
 		if w.faultsHit > 0 {
 			rec.Label("fault-hit")
+		}
+		if w.inactiveInLockDeletes > 0 {
+			rec.Label("revision-deleted-while-inactive-and-still-in-lock")
 		}
 		if w.crdDeletes > 0 {
 			rec.Label("crd-deleted-by-xrd-controller")
@@ -434,6 +439,52 @@ func directedRows() []directed {
 				{after: -1, desc: "revision gone, Lock lost exactly its entry", ok: func(w *world) bool {
 					return w.gone("rev") && !w.lockHas(revName) && w.lockHas("provider-other-aaaaaaaaaaaa") && w.ctrlFinRemoved[finRevision] == 1
 				}},
+			},
+		},
+		{
+			name: "inactive revision: deactivation loses the Lock update to a conflict, then the revision is deleted",
+			u:    full(func(u *universe) { u.Revision = true }),
+			script: []act{{Op: "deactivate-rev"}, {Op: "rec-rev", F: "err-conflict", K: 3}, {Op: "del-rev"}, {Op: "rec-rev"}},
+			checks: []milestone{
+				{after: 1, desc: "the faulted call was the Lock update of the deactivation and the entry is still there", ok: func(w *world) bool {
+					return strings.HasPrefix(callName(w.lastRun, 3), "update pkg.crossplane.io/Lock") && w.lockHas(revName) && !w.gone("rev")
+				}},
+				{after: -1, desc: "revision gone, Lock lost exactly its entry", ok: func(w *world) bool {
+					return w.gone("rev") && !w.lockHas(revName) && w.lockHas("provider-other-aaaaaaaaaaaa") && w.ctrlFinRemoved[finRevision] == 1
+				}},
+			},
+		},
+		{
+			name: "inactive revision: deactivation fails on the Lock update (500, then crash), then the revision is deleted",
+			u:    full(func(u *universe) { u.Revision = true }),
+			script: []act{{Op: "deactivate-rev"}, {Op: "rec-rev", F: "err-server", K: 3}, {Op: "rec-rev", F: "crash-before", K: 3}, {Op: "del-rev", FG: true}, {Op: "rec-rev"}, {Op: "gc"}, {Op: "gc"}, {Op: "gc"}},
+			checks: []milestone{
+				{after: 2, desc: "still listed in the Lock", ok: func(w *world) bool { return w.lockHas(revName) }},
+				{after: -1, desc: "revision gone, Lock lost its entry", ok: func(w *world) bool { return w.gone("rev") && !w.lockHas(revName) }},
+			},
+		},
+		{
+			name: "inactive revision: the Inactive edit and the delete are observed by the same reconcile",
+			u:    full(func(u *universe) { u.Revision = true }),
+			script: []act{{Op: "deactivate-rev"}, {Op: "del-rev"}, {Op: "rec-rev"}},
+			checks: []milestone{
+				{after: 1, desc: "terminating, Inactive, still listed in the Lock", ok: func(w *world) bool {
+					o := w.sim.Get(revKey)
+					return o != nil && verifsim.Terminating(o) && verifsim.Nested(o, "spec", "desiredState") == "Inactive" && w.lockHas(revName)
+				}},
+				{after: -1, desc: "revision gone, Lock lost its entry", ok: func(w *world) bool { return w.gone("rev") && !w.lockHas(revName) }},
+			},
+		},
+		{
+			name: "inactive revision: clean deactivation, deleted later",
+			u:    full(func(u *universe) { u.Revision = true }),
+			script: []act{{Op: "deactivate-rev"}, {Op: "rec-rev"}, {Op: "rec-rev"}, {Op: "del-rev"}, {Op: "rec-rev"}},
+			checks: []milestone{
+				{after: 1, desc: "deactivation removed the Lock entry, released the owned CRD, kept the revision and its finalizer", ok: func(w *world) bool {
+					crd := w.sim.Get(verifsim.Key{Group: crdGK.Group, Kind: crdGK.Kind, Name: revOwnedCRD})
+					return !w.lockHas(revName) && w.hasFin("rev", finRevision) && crd != nil && verifsim.ControllerUID(crd) == "" && len(verifsim.OwnerRefs(crd)) == 1
+				}},
+				{after: -1, desc: "revision gone", ok: func(w *world) bool { return w.gone("rev") && !w.lockHas(revName) && w.lockHas("provider-other-aaaaaaaaaaaa") }},
 			},
 		},
 		{
